@@ -45,7 +45,9 @@ macro_rules! impl_ranges {
 
         impl<Idx: MaxSizeOf> MaxSizeOf for core::ops::$ty<Idx> {
             fn max_size_of() -> usize {
-                core::mem::size_of::<Self>()
+                // An alignment unit must be a nonzero power of two: the size
+                // of a range is not one when `Idx` is, e.g., `[u8; 3]` or `()`.
+                core::mem::size_of::<Self>().next_power_of_two()
             }
         }
     };
